@@ -23,30 +23,40 @@ WALL_PER_RUN = 60.0
 MAX_CALLS = 40000        # a run is also ended (like at the virtual deadline) after this many calls of the poll thread
 
 META = {
-    'level_text': 'Theorems over the Lean model of the poll thread body (Timed/Poller.lean), all proved in full: errors_contained '
-                  '(successor state and call list of a turn independent of every outcome, every environment), nopoll_never_read '
-                  '(the monitor clause NoPollNeverRead for every trace of prologue + any number of turns, every environment), '
-                  'interval_change_triggers / _wakes / _next_wakeup (every environment), due_polled_this_turn, not_due_not_polled, '
-                  'main_gap_bound (consecutive doPoll starts <= max(I,D) + (n-1)(D+E) + D + 2E <= interval + one sweep, any n, any '
-                  'intervals) and slow_refresh_bound(_thread) (clock <= latest refresh + 1.5*slow + (2N+2)*sweep + 2) for quiet '
-                  '(other threads only trigger) environments with durations <= D and clock steps <= E.  The model is tied to '
-                  'frappy/modulebase.py by replaying every recorded environment of the real _Module__pollThread (virtual time) through '
-                  'the Lean `turn` and comparing the call lists; the Lean monitors check the full bounds, incl. run-time interval '
-                  'changes, on every implementation trace.',
+    'level_text': 'Theorems over the Lean model of the poll thread body (Timed/Poller.lean) and of the poll flag computation '
+                  '(Timed/PollFlags.lean), all proved in full: errors_contained (successor state and call list of a turn independent '
+                  'of every outcome, every environment), nopoll_never_read (the monitor clause NoPollNeverRead for every trace of '
+                  'prologue + any number of turns, every environment), poll_flags_mark / polled_is_mayPoll (the flag the thread tests is '
+                  'set exactly for parameters not marked as not polled, every kind of declaration), interval_change_triggers / _wakes / '
+                  '_next_wakeup / _not_lost / _in_window (every environment, incl. actions between wait and clear), '
+                  'interval_follows_commands (PollInfo.interval = the interval the module was told, every sequence of actions), '
+                  'due_polled_this_turn, not_due_not_polled, main_gap_bound (consecutive doPoll starts <= max(I,D) + (n-1)(D+E) + D + 2E '
+                  '<= interval + one sweep), main_gap_bound_spec (the monitor clause MainGapBoundS itself on the model trace), '
+                  'interval_change_takes_effect (after arbitrary actions of other threads: first start <= max(last_main + new interval, '
+                  'moment of change) + sweep, later gaps <= new interval + sweep), slow_refresh_bound(_thread) (clock <= latest refresh + '
+                  '1.5*slow + (2N+2)*sweep + 2) and bounds_from_thread_start (both bounds from the state PollInfo.__init__ leaves) for '
+                  'quiet environments with durations <= D and clock steps <= E.  The model is tied to frappy/modulebase.py and '
+                  'frappy/rwhandler.py by replaying every recorded environment of the real _Module__pollThread (virtual time, other '
+                  'threads acting inside poll functions, inside waits, at the entry of wait and of clear) through the Lean `turn` and '
+                  'comparing the call lists, and by comparing the real poll flags with the model; the Lean monitors check the full '
+                  'bounds, incl. run-time interval changes judged against the commands given, on every implementation trace.',
     'level_note': 'Trusted: Lean kernel + axioms propext/Classical.choice/Quot.sound; vlib.sched virtual clock (1 tick = 2^-10 s, '
                   'all intervals/durations multiples of it so that the float arithmetic of the loop is exact); the ghost fields '
-                  'lastStart/refreshed of the model (pinned by refreshed_is_a_refresh); interval changes during a run are covered '
-                  'per step and by the monitor, not by the two run-level bounds (hypothesis Quiet); OS scheduling latency and the '
-                  'GIL are outside the model.',
+                  'lastStart/refreshed of the model (pinned by refreshed_is_a_refresh); the run-level bounds assume a quiet stretch '
+                  '(after any actions: interval_change_takes_effect), runs with changes at several moments are covered per stretch and '
+                  'by the monitor; the refresh bound is not proved as the Spec clause on traceOf; OS scheduling latency and the GIL are '
+                  'outside the model.',
     'trusted': [
         'virtual time: every clock read advances by >= 1 tick; durations are those the fake drivers sleep on the patched clock',
-        'instrumentation: mobj.callPollFunc / writeInitParams / triggerPoll.wait are wrapped on the instances (the originals run inside)',
+        'instrumentation: mobj.callPollFunc / writeInitParams / triggerPoll.wait / triggerPoll.clear are wrapped on the instances (the originals run inside)',
+        'the recipe of the generated classes (decls_of: how each read function is declared; enablePoll) as reported to the judge',
         'BaseException (SystemExit, KeyboardInterrupt) is deliberately not contained by callPollFunc and is outside the statement',
     ],
     'modelled_not_verified': [
         'announceUpdate (time stamps are taken from the real objects after every call and fed to the model as environment)',
-        'read wrappers / accessLock, logging',
+        'accessLock, logging, the bodies of the read wrappers (only their poll flag is modelled)',
         'IOBase.callCallbacks (the reconnect callback trigger_all is invoked through it)',
+        'actions of other threads after clear() returned and before the next clock read, and between modules of a sweep without a call (no slot in the model, not generated)',
     ],
     'assumptions': ['slowinterval > 0 (datatype FloatRange(0.1, 120)); poll intervals >= 0',
                     'time stamps given to parameters are not in the future'],
@@ -87,7 +97,6 @@ class Rec:
         self.nested = []         # (t, m, fname) reads made from inside doPoll / initialReads
         self.stamps = {}         # (m, p) -> last seen timestamp
         self.track = []          # (m, p, pobj)
-        self.intervals = {}      # m -> [(t, interval)]
         self.in_wait = False
         self.wait_t0 = 0
         self.batches = []
@@ -99,6 +108,12 @@ class Rec:
         self.incomplete = None
         self.t_end = None
         self.wait_log = []       # (start, timeout, elapsed, event was already set) per wait, for diagnostics
+        self.gaps = []           # per wait: what other threads did between its return and the `clear` that follows
+        self.in_gap = False
+        self.sync_n = 0          # number of event operations (wait / clear) the poll thread has begun
+        self.at_sync = False     # the poll thread is at the entry of such an operation right now
+        self.cmds = {}           # m -> [['pi', t, v] | ['fp', t, flag, v]]: what the module was told
+        self.drift = None        # the implementation did something the model has no slot for (a correspondence disagreement)
 
     def now(self):
         return _tick(self.s.now)
@@ -130,7 +145,8 @@ class Rec:
         if self.cur is not None:
             raise HarnessProblem('nested direct call')
         if self.mclock is not None and self.now() != self.mclock:
-            raise HarnessProblem(f'clock moved outside the model: {self.now()} != {self.mclock} before {m} {f}')
+            self.drift = self.drift or f'clock moved outside the model: {self.now()} != {self.mclock} before {m} {f}'
+            self.mclock = self.now()
         self.cur = {'t': self.now(), 'm': m, 'f': f}
         self.outcome = 'ok'
         self.flag0 = self.event.is_set() if self.event is not None else False
@@ -157,6 +173,7 @@ class Rec:
         self.calls.append(c)
         self.mclock = self.now()
         del self.s.trace[:]          # the scheduler's label trace is not used here; keep memory flat
+        del self.s.choices[:]
         if len(self.calls) >= MAX_CALLS and not self.s.aborting:
             self.t_end = self.now()
             self.s._abort('done')
@@ -251,12 +268,15 @@ def build_classes(rec, spec_mods, T):
         for (kind, g), members in groups.items():
             keys = tuple(n for n, _ in members)
             scripts = dict(members)
+            np_ = next(p.get('np') for p in spec['params'] if p['kind'] == kind and p.get('group') == g)
+            inner = nopoll if np_ == 'inner' else (lambda f: f)       # @nopoll below the handler decorator
+            outer = nopoll if np_ == 'outer' else (lambda f: f)       # nopoll(...) applied to the handler object
             if kind == 'handler':
                 def hf(self, pname, _sc=scripts):
                     return fake(self, 'read_' + pname, _sc[pname], 'changing')
                 hf.__name__ = 'read_group%d' % g
                 hf.__qualname__ = 'Gen%d.read_group%d' % (mi, g)
-                ns['read_group%d' % g] = ReadHandler(keys)(hf)
+                ns['read_group%d' % g] = outer(ReadHandler(keys)(inner(hf)))
             else:
                 def cf(self, _sc=scripts, _keys=keys):
                     v = fake(self, 'read_' + _keys[0], _sc[_keys[0]], 'changing')
@@ -264,16 +284,23 @@ def build_classes(rec, spec_mods, T):
                         setattr(self, kname, v)
                 cf.__name__ = 'read_common%d' % g
                 cf.__qualname__ = 'Gen%d.read_common%d' % (mi, g)
-                ns['read_common%d' % g] = CommonReadHandler(keys)(cf)
+                ns['read_common%d' % g] = outer(CommonReadHandler(keys)(inner(cf)))
 
         dp_script = [tuple(x) for x in spec.get('doPoll', [[0, 'ok']])]
         dp_reads = list(spec.get('doPollReads', []))
+        dp_acts = {}
+        for kk, act in spec.get('doPollActs', []):
+            dp_acts.setdefault(kk, []).append(act)
 
-        def doPoll(self, _s=dp_script, _r=dp_reads, mi=mi):
+        def doPoll(self, _s=dp_script, _r=dp_reads, mi=mi, _acts=dp_acts):
             k, d, o = _script_next(rec, (mi, 'doPoll'), _s)
             rec.depth += 1
             try:
                 rec.handoff()
+                # driver code switching fast polling / triggering from inside its own doPoll, i.e. from the poll
+                # thread itself (as HasStates.cycle_machine does)
+                for act in _acts.get(k, []):
+                    rec.do_action(dict(act, m=mi))
                 for pn in _r:
                     getattr(self, 'read_' + pn)()
                 if d:
@@ -311,7 +338,13 @@ def build_classes(rec, spec_mods, T):
         if spec.get('written'):
             ns['w'] = Parameter('written at start', FloatRange(), default=0, readonly=False)
 
-            def write_w(self, value):
+            wd, wo = spec.get('wscript', [0, 'ok'])
+
+            def write_w(self, value, _d=wd, _o=wo):
+                # the write of the configured value at start-up (inside writeInitParams, i.e. inside the 'init' call)
+                if _d:
+                    T.sleep(_d / TICKS)
+                _raise(_o)
                 return value
             ns['write_w'] = write_w
         if not spec.get('enabled', True):
@@ -336,28 +369,54 @@ def build_classes(rec, spec_mods, T):
     return classes
 
 
-def expected_polled(spec, mobj):
-    """which parameters the poller may read, from how the class was generated (NOT from pollInfo):
-    ids are positions in `mobj.parameters`"""
+def decls_of(spec, mobj):
+    """how the class declares the read function of each parameter (in `mobj.parameters` order), from how the class was
+    GENERATED (not from the flags the framework computed): `[kind, inner nopoll, outer nopoll]`.  Which of these are
+    polled is decided in Lean (model `PollFlags.pollFlag` for the correspondence, `Spec.C13.mayPoll` for the judge)."""
     kinds = {p['name']: p for p in spec['params']}
-    names = list(mobj.parameters)
     res = []
     seen_common = set()
-    for i, n in enumerate(names):
+    for n in mobj.parameters:
         p = kinds.get(n)
         if spec['base'] == 'io' and n == 'is_connected':
-            res.append(i)       # IOBase.read_is_connected is a polled read function of the framework
-            continue
-        if p is None:
-            continue
-        if p['kind'] == 'read' or p['kind'] == 'handler':
-            res.append(i)
-        elif p['kind'] == 'common':
-            first = [q['name'] for q in spec['params'] if q['kind'] == 'common' and q['group'] == p['group']][0]
-            if n == first and p['group'] not in seen_common:
-                seen_common.add(p['group'])
-                res.append(i)
+            res.append(['plain', False, False])       # IOBase.read_is_connected is a plain read function of the framework
+        elif p is None or p['kind'] == 'none':
+            res.append(['none', False, False])
+        elif p['kind'] == 'read':
+            res.append(['plain', False, False])
+        elif p['kind'] == 'nopoll':
+            res.append(['plain', True, False])
+        else:
+            np_ = next(q.get('np') for q in spec['params'] if q['kind'] == p['kind'] and q.get('group') == p['group'])
+            if p['kind'] == 'handler':
+                k = 'handler'
+            else:
+                first = [q['name'] for q in spec['params'] if q['kind'] == 'common' and q['group'] == p['group']][0]
+                k = 'commonFirst' if n == first else 'commonRest'
+            res.append([k, np_ == 'inner', np_ == 'outer'])
     return res
+
+
+WINDOW = ('c13.window',)
+
+
+def _window_policy():
+    from vlib.sched import Policy
+
+    class WindowPolicy(Policy):
+        """never preempt, except: a thread waiting for the poll thread to reach one of its event operations
+        (label WINDOW, condition true) runs at exactly that yield point — before the operation takes effect"""
+
+        def choose(self, enabled, default, step, labels):
+            for k, t in enumerate(enabled):
+                if t.status == 'blocked' and t.label == WINDOW:
+                    return k
+            return default
+    return WindowPolicy
+
+
+def WindowPolicy():
+    return _window_policy()()
 
 
 def impl_run(case):
@@ -367,7 +426,7 @@ def impl_run(case):
     from vlib.sched import Scheduler
     from vlib.node import Node
 
-    s = Scheduler(max_steps=case.get('max_steps', 3000000), start_time=float(case.get('start', 1000)))
+    s = Scheduler(policy=WindowPolicy(), max_steps=case.get('max_steps', 3000000), start_time=float(case.get('start', 1000)))
     s.TICK = 1.0 / TICKS
     rec = Rec(s)
     T_end = case['T']
@@ -430,17 +489,18 @@ def impl_run(case):
         index = {m.name: i for i, m in enumerate(thread_mods)}       # model index = position in the thread's list
         spec_of = {('m%d' % mi): spec for mi, spec in enumerate(spec_mods)}
 
-        model_mods, judge_mods = [], []
+        model_mods, judge_mods, impl_flags = [], [], []
         for i, mobj in enumerate(thread_mods):
             spec = spec_of[mobj.name]
-            polled = expected_polled(spec, mobj)
+            decls = decls_of(spec, mobj)
             names = list(mobj.parameters)
             enabled = bool(spec.get('enabled', True))
             stamps = []
-            for pid in polled:
-                pobj = mobj.parameters[names[pid]]
-                ts = pobj.timestamp or 0
-                stamps.append([pid, _tick(ts)])
+            for pid, n in enumerate(names):
+                ts = mobj.parameters[n].timestamp or 0
+                if ts:
+                    stamps.append([pid, _tick(ts)])
+            impl_flags.append([bool(getattr(mobj, 'read_' + n).poll) for n in names])
             # every parameter of an enabled module is watched: a time stamp on a non-polled one is just ignored by the model
             for pid, n in enumerate(names):
                 if enabled:
@@ -448,11 +508,11 @@ def impl_run(case):
                     rec.track.append((i, pid, pobj))
                     rec.stamps[(i, pid)] = pobj.timestamp or 0
             iv = _tick(mobj.pollinterval)
-            model_mods.append({'enabled': enabled, 'slow': _tick(mobj.slowinterval), 'polled': polled if enabled else [],
+            model_mods.append({'enabled': enabled, 'slow': _tick(mobj.slowinterval), 'decls': decls,
                                'pollinterval': iv, 'interval': iv, 'stamps': stamps})
-            judge_mods.append({'enabled': enabled, 'slow': _tick(mobj.slowinterval), 'polled': polled if enabled else [],
-                               'intervals': [[0, iv]], 'names': names})
-            rec.intervals[i] = judge_mods[-1]['intervals']
+            judge_mods.append({'enabled': enabled, 'slow': _tick(mobj.slowinterval), 'decls': decls,
+                               'pollinterval': iv, 'cmds': [], 'names': names})
+            rec.cmds[i] = judge_mods[-1]['cmds']
 
         # ---- instrumentation on the instances
         def fn_code(mobj, name):
@@ -487,19 +547,26 @@ def impl_run(case):
             tq = math.ceil(timeout * TICKS - 1e-9) / TICKS
             w0 = rec.now()
             if rec.mclock is not None and w0 != rec.mclock:
-                raise HarnessProblem(f'clock moved outside the model before wait: {w0} != {rec.mclock}')
+                rec.drift = rec.drift or f'clock moved outside the model before wait: {w0} != {rec.mclock}'
             was_set = ev.is_set()
             rec.in_wait = True
             rec.wait_t0 = w0
             rec.batches = []
+            rec.sync_n += 1
+            rec.at_sync = True
             try:
                 r = orig_wait(tq)
             finally:
                 rec.in_wait = False
+                rec.at_sync = False
             batches = rec.batches
             rec.batches = []
+            gap = []
             if was_set:
+                # the wait returned at once; whatever another thread did at its entry comes, for the loop, between
+                # this wait and the `clear`
                 d = 0
+                gap = [x for b in batches for x in b['x']]
                 batches = []
             else:
                 trig = [b for b in batches if b['set']]
@@ -510,10 +577,25 @@ def impl_run(case):
                     if rec.now() - w0 < d:
                         raise HarnessProblem(f'wait({tq}) returned after {rec.now() - w0} ticks without a trigger')
             rec.waits.append([{'d': b['d'], 'x': b['x']} for b in batches])
+            rec.gaps.append(gap)
             rec.wait_log.append((w0, _tick(tq), d, was_set))
             rec.mclock = w0 + d
             return r
         ev.wait = wait
+        orig_clear = ev.clear
+
+        def clear():
+            if not rec.is_poller():
+                return orig_clear()
+            rec.in_gap = True
+            rec.sync_n += 1
+            rec.at_sync = True
+            try:
+                return orig_clear()        # yields before it takes effect: another thread may act here
+            finally:
+                rec.in_gap = False
+                rec.at_sync = False
+        ev.clear = clear
 
         # ---- threads
         state = {'exited': False, 'started': None}
@@ -534,6 +616,12 @@ def impl_run(case):
                 b = {'d': rec.now() - rec.wait_t0, 'x': [x], 'set': False}
                 rec.batches.append(b)
                 return b
+            if rec.in_gap:
+                if rec.gaps:
+                    rec.gaps[-1].append(x)
+                else:
+                    rec.drift = rec.drift or 'the poll thread clears its event without having waited'
+                return None
             if rec.cur is None:
                 raise HarnessProblem(f'actor acted while the poll thread was between blocking points ({rec.poller.label})')
             rec.pending_ext.append(x)
@@ -549,37 +637,55 @@ def impl_run(case):
                 if a['at'] > t:
                     s.time.sleep((a['at'] - t) / TICKS)
                     t = a['at']
-                mname = 'm%d' % a['m']
-                mobj = node.modules[mname]
-                i = index.get(mname)
-                if i is None or mobj.pollInfo is None:
+                do_action(a)
+
+        def do_action(a):
+            """what another thread does to the module: the command it gives is recorded for the judge (what the module
+            was TOLD — never what the poller's bookkeeping made of it), its effect on the loop for the model"""
+            mname = 'm%d' % a['m']
+            mobj = node.modules[mname]
+            i = index.get(mname)
+            if i is None or mobj.pollInfo is None or rec.poller.status == 'done':
+                return
+            op = a['op']
+            begin = rec.now()
+            batch = None
+            if op == 'pi':
+                # for the model: recorded by the wrapper of PollInfo.update_interval, and only if the callback really runs
+                # (announceUpdate omits callbacks for an unchanged value within `omit_unchanged_within`)
+                mobj.pollinterval = a['v'] / TICKS
+                rec.cmds[i].append(['pi', begin, _tick(mobj.pollinterval)])
+            elif op == 'fast':
+                batch = note_ext(['fp', i, bool(a['flag']), a['v']])
+                rec.cmds[i].append(['fp', begin, bool(a['flag']), a['v']])
+                mobj.setFastPoll(bool(a['flag']), a['v'] / TICKS)
+            elif op == 'trig':
+                batch = note_ext(['tr', i, bool(a['imm'])])
+                mobj.pollInfo.trigger(bool(a['imm']))
+            elif op == 'reconnect':
+                cbs = getattr(owner, '_reconnectCallbacks', None)
+                if not cbs or 'trigger_polls' not in cbs:
+                    return
+                batch = note_ext(['ta'])
+                owner.callCallbacks()
+            if batch is not None:
+                batch['set'] = ev.is_set()
+
+        rec.do_action = do_action
+
+        def intruder():
+            # acts at chosen event operations (wait / clear) of the poll thread, at their entry: between the computation
+            # of the wait time and the wait, and between the return of the wait and the clear
+            while state['started'] is None and rec.poller.status != 'done':
+                s.time.sleep(16 / TICKS)
+            base = rec.sync_n
+            for a in sorted(case.get('wactions', []), key=lambda a: a['sync']):
+                target = base + a['sync']
+                if rec.sync_n >= target:
                     continue
-                op = a['op']
-                begin = rec.now()
-                batch = None
-                if op == 'pi':
-                    # recorded by the wrapper of PollInfo.update_interval, and only if the callback really runs
-                    # (announceUpdate omits callbacks for an unchanged value within `omit_unchanged_within`)
-                    mobj.pollinterval = a['v'] / TICKS
-                elif op == 'fast':
-                    batch = note_ext(['fp', i, bool(a['flag']), a['v']])
-                    mobj.setFastPoll(bool(a['flag']), a['v'] / TICKS)
-                elif op == 'trig':
-                    batch = note_ext(['tr', i, bool(a['imm'])])
-                    mobj.pollInfo.trigger(bool(a['imm']))
-                elif op == 'reconnect':
-                    cbs = getattr(owner, '_reconnectCallbacks', None)
-                    if not cbs or 'trigger_polls' not in cbs:
-                        continue
-                    batch = note_ext(['ta'])
-                    owner.callCallbacks()
-                if batch is not None:
-                    batch['set'] = ev.is_set()
-                for j, mo in enumerate(thread_mods):
-                    if mo.pollInfo is not None:
-                        cur = _tick(mo.pollInfo.interval)
-                        if rec.intervals[j][-1][1] != cur:
-                            rec.intervals[j].append([begin, cur])
+                s.block(WINDOW, lambda: rec.at_sync and rec.sync_n == target)
+                if rec.at_sync and rec.sync_n == target:
+                    do_action(a)
 
         def stopper():
             state['tEnd'] = rec.now() + T_end
@@ -600,6 +706,8 @@ def impl_run(case):
 
         rec.poller = s.spawn('poller', body)
         s.spawn('actor', actor)
+        if case.get('wactions'):
+            s.spawn('intruder', intruder)
         s.spawn('stopper', stopper)
         mb.PollInfo.update_interval = update_interval
         try:
@@ -623,10 +731,14 @@ def impl_run(case):
         'judge_mods': [{k: v for k, v in m.items() if k != 'names'} for m in judge_mods],
         'names': [m['names'] for m in judge_mods],
         'order': [m.name for m in thread_mods],
+        'impl_flags': impl_flags,
         'calls': rec.calls,
         'incomplete': rec.incomplete,
         'advs': rec.advs,
         'waits': rec.waits,
+        'gaps': rec.gaps,
+        'drift': rec.drift,
+        'syncs': rec.sync_n,
         'wait_log': rec.wait_log,
         'clock0': start,
         'loopStart': rec.loop_start if rec.loop_start is not None else (rec.mclock or start),
@@ -646,12 +758,17 @@ def fn_json(f):
     return f
 
 
+def flags_requests(obs):
+    return [{'p': 'C13', 'k': 'flags', 'decls': m['decls']} for m in obs['model_mods']]
+
+
 def model_request(obs):
+    """the polled parameters of the model's modules are computed in Lean from `decls` (model `PollFlags`)"""
     return {'p': 'C13', 'k': 'run', 'clock': obs['clock0'],
             'mods': obs['model_mods'], 'adv': obs['advs'],
             'calls': [{'d': c['d'], 'o': MODEL_OUTCOME[c['o']] if c['o'] in MODEL_OUTCOME else c['o'],
                        't': c['touch'], 'x': c['x']} for c in obs['calls']],
-            'waits': obs['waits']}
+            'waits': obs['waits'], 'gaps': obs['gaps']}
 
 
 def judge_request(obs):
@@ -718,8 +835,9 @@ def gen_case(rng, big, T):
             kind = rng.choice(['read', 'read', 'read', 'nopoll', 'none', 'handler', 'common'])
             if kind in ('handler', 'common') and i + 1 < np_:
                 group += 1
+                npv = rng.choice([None, None, None, 'inner', 'outer'])
                 for _ in range(2):
-                    params.append({'name': names[i], 'kind': kind, 'group': group,
+                    params.append({'name': names[i], 'kind': kind, 'group': group, 'np': npv,
                                    'script': gen_script(rng, heavy and rng.random() < 0.3, failing)})
                     i += 1
                 continue
@@ -739,6 +857,20 @@ def gen_case(rng, big, T):
         if rng.random() < 0.08:
             spec['enabled'] = False
             spec['written'] = True
+        elif rng.random() < 0.25:
+            spec['written'] = True
+        if base == 'readable' and rng.random() < 0.2:
+            # the module's own doPoll switches fast polling / changes its interval / triggers at its k-th invocation
+            acts = []
+            for _ in range(rng.choice([1, 2, 3])):
+                a = gen_command(rng, [spec], 0, 0) if rng.random() < 0.8 else {'op': 'trig', 'imm': rng.random() < 0.5}
+                a.pop('at', None)
+                a.pop('m', None)
+                acts.append([rng.randrange(1, 40), a])
+            spec['doPollActs'] = sorted(acts, key=lambda x: x[0])
+        if spec.get('written'):
+            # the start-up write may take time and may fail in every way a read can
+            spec['wscript'] = [rng.choice([0, 0, 16, 256]), rng.choice(['ok', 'ok', 'ok'] + OUTCOMES[1:])]
         mods.append(spec)
     if not any(m.get('enabled', True) for m in mods):
         mods[-1]['enabled'] = True
@@ -764,14 +896,120 @@ def gen_case(rng, big, T):
                 actions.append({'at': t, 'op': 'trig', 'm': m, 'imm': rng.random() < 0.6})
             elif with_io:
                 actions.append({'at': t, 'op': 'reconnect', 'm': 0})
-    return {'mods': mods, 'actions': actions, 'T': T, 'start': 1000}
+    # a session of commands to ONE module (fast polling on/off and poll interval changes in any order), so that every
+    # short history of what a module can be told occurs often — not only isolated commands to random modules
+    if rng.random() < 0.35:
+        cand = [k for k, m in enumerate(mods) if m['base'] in ('readable', 'io') and m.get('enabled', True)]
+        if cand:
+            m = rng.choice(cand)
+            t = actions[-1]['at'] if actions else 0
+            for _ in range(rng.choice([2, 3, 3, 4])):
+                t += rng.choice([700, 1500, 3001, 7777])
+                if t >= T - 4096:
+                    break
+                actions.append(gen_command(rng, mods, m, t))
+    # actions of another thread at the entry of event operations of the poll thread (see `intruder`)
+    wactions = []
+    if rng.random() < 0.45:
+        used = set()
+        for _ in range(rng.choice([1, 2, 3])):
+            k = rng.randrange(1, 80)
+            if k in used:
+                continue
+            used.add(k)
+            m = rng.randrange(len(mods))
+            r = rng.random()
+            if r < 0.75 and mods[m]['base'] in ('readable', 'io'):
+                a = gen_command(rng, mods, m, 0)
+            elif r < 0.9 or not with_io:
+                a = {'op': 'trig', 'm': m, 'imm': rng.random() < 0.6}
+            else:
+                a = {'op': 'reconnect', 'm': 0}
+            a.pop('at', None)
+            a['sync'] = k
+            wactions.append(a)
+    return {'mods': mods, 'actions': actions, 'wactions': wactions, 'T': T, 'start': 1000}
+
+
+def gen_command(rng, mods, m, t):
+    """one thing a module can be told about its poll interval"""
+    r = rng.random()
+    if r < 0.4:
+        v = rng.choice(POLL_IV + ([0] if mods[m]['base'] == 'io' else []))
+        return {'at': t, 'op': 'pi', 'm': m, 'v': v}
+    if r < 0.75:
+        return {'at': t, 'op': 'fast', 'm': m, 'flag': True, 'v': rng.choice([0, 64, 64, 256, 256, 1024])}
+    return {'at': t, 'op': 'fast', 'm': m, 'flag': False, 'v': rng.choice([64, 256])}
+
+
+def command_catalogue():
+    """every sequence of three commands (fast polling on `+`, off `-`, poll interval change `p`) given to a module
+    that starts with a long poll interval, three modules (= three sequences) per scenario; the values get shorter
+    with each command, so a command that is not (or no longer) honoured shows as a main poll that comes too late"""
+    import itertools
+    seqs = list(itertools.product('+-p', repeat=3))
+    cases = []
+    for k in range(0, len(seqs), 3):
+        mods, actions = [], []
+        for j, seq in enumerate(seqs[k:k + 3]):
+            mods.append({'base': 'readable', 'has_io': False, 'pollinterval': 10240, 'slow': 15360,
+                         'params': [{'name': 'a', 'kind': 'read', 'script': [[8, 'ok']]}],
+                         'doPoll': [[8, 'ok']], 'doPollReads': [], 'init': [[0, 'ok']], 'initReads': [], 'enabled': True})
+            for n, c in enumerate(seq):
+                at = 2048 + n * 5120 + j * 300
+                if c == 'p':
+                    actions.append({'at': at, 'op': 'pi', 'm': j, 'v': [2560, 1024, 512][n]})
+                else:
+                    actions.append({'at': at, 'op': 'fast', 'm': j, 'flag': c == '+', 'v': [512, 256, 128][n]})
+        mods[0]['base'] = 'io'
+        mods[0]['params'] = []
+        for mm in mods[1:]:
+            mm['has_io'] = True
+        actions.sort(key=lambda a: a['at'])
+        cases.append({'mods': mods, 'actions': actions, 'wactions': [], 'T': 50 * TICKS, 'start': 1000,
+                      'note': 'command sequences ' + ' '.join(''.join(q) for q in seqs[k:k + 3])})
+    return cases
+
+
+def decl_catalogue():
+    """every way a class can declare a read function, on one poll thread: read handlers and common read handlers
+    without / with `@nopoll` on the handler function / with `nopoll(...)` on the handler object, plain and `@nopoll`
+    read functions, a parameter without read function"""
+    def mod(kind):
+        params = []
+        for g, (npv, (x, y)) in enumerate([(None, 'ab'), ('inner', 'ce'), ('outer', 'fg')], 1):
+            for n in (x, y):
+                params.append({'name': n, 'kind': kind, 'group': g, 'np': npv, 'script': [[4, 'ok']]})
+        return {'base': 'readable', 'has_io': True, 'pollinterval': 1024, 'slow': 2048, 'params': params,
+                'doPoll': [[4, 'ok']], 'doPollReads': [], 'init': [[0, 'ok']], 'initReads': [], 'enabled': True}
+    plain = {'base': 'module', 'has_io': True, 'pollinterval': 1024, 'slow': 1024,
+             'params': [{'name': 'a', 'kind': 'read', 'script': [[4, 'ok']]}, {'name': 'b', 'kind': 'nopoll', 'script': [[4, 'ok']]},
+                        {'name': 'c', 'kind': 'none', 'script': [[4, 'ok']]}],
+             'doPoll': [[4, 'ok']], 'doPollReads': ['b'], 'init': [[0, 'ok']], 'initReads': [], 'enabled': True}
+    io = {'base': 'io', 'pollinterval': 5120, 'slow': 4096, 'params': [], 'enabled': True, 'doPoll': [[0, 'ok']], 'init': [[0, 'ok']]}
+    return [{'mods': [io, mod('handler'), mod('common'), plain], 'actions': [], 'wactions': [], 'T': 30 * TICKS, 'start': 1000}]
+
+
+def window_catalogue():
+    """one module with a long poll interval; another thread shortens it at the entry of the n-th event operation of
+    the poll thread, n = 1..6 (before a wait / between a wait and the clear, early and late in the run)"""
+    cases = []
+    for k in (1, 2, 3, 4, 5, 6):
+        for a in ({'op': 'fast', 'm': 0, 'flag': True, 'v': 64}, {'op': 'pi', 'm': 0, 'v': 256}):
+            cases.append({'mods': [{'base': 'readable', 'has_io': False, 'pollinterval': 10240, 'slow': 15360,
+                                    'params': [{'name': 'a', 'kind': 'read', 'script': [[8, 'ok']]}],
+                                    'doPoll': [[8, 'ok']], 'doPollReads': [], 'init': [[0, 'ok']], 'initReads': [], 'enabled': True}],
+                          'actions': [], 'wactions': [dict(a, sync=k)], 'T': 40 * TICKS, 'start': 1000})
+    return cases
 
 
 def zero_interval(case):
     """does any module ever run with interval 0 (the loop then never waits: one turn per few ticks)"""
     if any(m['base'] == 'io' and m['pollinterval'] == 0 and m.get('enabled', True) for m in case['mods']):
         return True
-    return any(a['op'] in ('fast', 'pi') and a['v'] == 0 and a.get('flag', True) for a in case.get('actions', []))
+    own = [a for m in case['mods'] for _, a in m.get('doPollActs', [])]
+    return any(a['op'] in ('fast', 'pi') and a['v'] == 0 and a.get('flag', True)
+               for a in case.get('actions', []) + case.get('wactions', []) + own)
 
 
 def cheap_turn(case):
@@ -848,10 +1086,20 @@ def describe(obs, judge):
     return '; '.join(parts)
 
 
+def ask(ctx, obs):
+    """model of the flags -> model of the loop (with the polled lists the flag model yields) and the judge"""
+    a = ctx.driver.batch([model_request(obs), judge_request(obs)] + flags_requests(obs))
+    for f in a[2:]:
+        if 'driver_error' in f:
+            raise RuntimeError(f'driver error: {f}')
+    obs['model_flags'] = [f['flags'] for f in a[2:]]
+    return a[0], a[1]
+
+
 def evaluate(ctx, case):
     obs = impl_run(case)
-    a = ctx.driver.batch([model_request(obs), judge_request(obs)])
-    return obs, a[0], a[1]
+    model, judge = ask(ctx, obs)
+    return obs, model, judge
 
 
 def shrink_case(ctx, case, sig):
@@ -870,10 +1118,17 @@ def shrink_case(ctx, case, sig):
             best = dict(best, actions=acts)
         else:
             best = dict(best, actions=[])
+    if best.get('wactions'):
+        if fails_with(dict(best, wactions=[])):
+            best = dict(best, wactions=[])
+        elif len(best['wactions']) > 1:
+            wa = ddmin(best['wactions'], lambda a: fails_with(dict(best, wactions=a)), max_tests=8)
+            best = dict(best, wactions=wa)
     # drop trailing modules that are not needed (an io module at index 0 has to stay when others refer to it)
     while len(best['mods']) > 1:
         cand = dict(best, mods=best['mods'][:-1],
-                    actions=[a for a in best['actions'] if a['m'] < len(best['mods']) - 1])
+                    actions=[a for a in best['actions'] if a['m'] < len(best['mods']) - 1],
+                    wactions=[a for a in best.get('wactions', []) if a['m'] < len(best['mods']) - 1])
         if any(m.get('enabled', True) for m in cand['mods']) and fails_with(cand):
             best = cand
         else:
@@ -900,6 +1155,9 @@ def run(ctx):
         for fn in sorted(os.listdir(cdir)):
             cases.append(json.load(open(os.path.join(cdir, fn)))['case'])
     cases += [dict(c) for c in BOUNDARY]
+    cases += command_catalogue()
+    cases += window_catalogue()
+    cases += decl_catalogue()
     n = ctx.budget(140, 600)
     for _ in range(n):
         c = gen_case(rng, big, T)
@@ -916,7 +1174,7 @@ def run(ctx):
             res.notes.append(f'wall budget reached after {ci} of {len(cases)} scenarios')
             break
         obs = impl_run(case)
-        model, judge = ctx.driver.batch([model_request(obs), judge_request(obs)])
+        model, judge = ask(ctx, obs)
         if 'driver_error' in model or 'driver_error' in judge:
             raise RuntimeError(f'driver error: {model} {judge}')
         res.evaluations += 1
@@ -930,10 +1188,28 @@ def run(ctx):
         res.count('io' if case['mods'][0]['base'] == 'io' else 'no-io')
         res.count('enabled=%d' % nen)
         res.count('actions=%s' % min(len(case.get('actions', [])), 3))
+        fired = sum(len(g) for g in obs['gaps'])
+        res.count('window-actions=%s' % ('none' if not case.get('wactions') else 'given'))
+        if fired:
+            res.count('acted-between-wait-and-clear')
+        if any(b['d'] == 0 for w in obs['waits'] for b in w):
+            res.count('acted-at-wait-entry')
+        for m in obs['judge_mods']:
+            kinds = ''.join('p' if c[0] == 'pi' else ('+' if c[2] else '-') for c in m['cmds'])
+            if kinds:
+                res.count('commands=%s' % (kinds if len(kinds) <= 3 else kinds[:3] + '…'))
         res.count('interval0' if zero_interval(case) else 'interval>0')
         res.count('failing-calls=%s' % ('0' if not fails else '1-9' if fails < 10 else '10+'))
         res.count('startup-abort' if model.get('aborted') else 'startup-complete')
+        if any(m.get('doPollActs') for m in case['mods']):
+            res.count('commands-from-own-doPoll')
+        for m in case['mods']:
+            if m.get('written'):
+                res.count('startup-write.' + m.get('wscript', [0, 'ok'])[1])
         res.count('events=%s' % ('<100' if len(evs) < 100 else '<1000' if len(evs) < 1000 else '1000+'))
+        for m in obs['model_mods']:
+            for d in m['decls']:
+                res.count('decl.%s%s' % (d[0], '.nopoll' if d[1] or d[2] else ''))
         for c in obs['calls']:
             res.count('outcome.' + c['o'])
         if (nen >= 2 or fails) and nmain >= 20 and nslow >= 1 and len(obs['waits']) >= 1:
@@ -944,7 +1220,12 @@ def run(ctx):
         # ---- correspondence
         if ctx.model_ok:
             mevs = model['evs']
-            if mevs != evs or (obs['calls'] and model['loopStart'] != obs['loopStart'] and obs['advs']):
+            if obs['model_flags'] != obs['impl_flags']:
+                res.disagreements.append({'case': case, 'model': {'poll_flags': obs['model_flags']},
+                                          'impl': {'poll_flags': obs['impl_flags'], 'decls': [m['decls'] for m in obs['model_mods']]}})
+            elif obs.get('drift'):
+                res.disagreements.append({'case': case, 'model': 'no slot for what the implementation did', 'impl': obs['drift']})
+            elif mevs != evs or (obs['calls'] and model['loopStart'] != obs['loopStart'] and obs['advs']):
                 k = next((i for i, (x, y) in enumerate(zip(mevs, evs)) if x != y), min(len(mevs), len(evs)))
                 res.disagreements.append({'case': case, 'model': {'first_diff': k, 'evs': mevs[max(0, k - 2):k + 3], 'n': len(mevs),
                                                                    'loopStart': model['loopStart']},
